@@ -235,13 +235,13 @@ def run(r):
               "and observes parameters with is none / is defined; "
               "the box also calls the macro BY A CALL BLOCK ({% call m(args) %} / {% call(x) m(args) %}: literal keyword arguments = the static fast path of compile_call_args, variables = the slow path, "
               "macro that renders caller() / caller(7) or never mentions caller), and the splat twin comes in three forms (all through *[..] / **{..}; first argument plain, the rest behind it in splats; splats first, last argument plain); "
-              "AUTO-ESCAPE MODES: every generated program also runs under one of five modes — esc-ident (AutoEscape::Custom + a formatter that writes values as they are: captures are marked safe, the output must be the reference's) "
+              "AUTO-ESCAPE MODES: every generated program also runs under one of six modes — esc-ident (AutoEscape::Custom + a formatter that writes values as they are: captures are marked safe, the output must be the reference's) "
               "or against its NEUTRAL TWIN under HTML escaping, JSON escaping, inside {% autoescape true %}, and under a formatter that brackets values marked safe: the twin has the same documented meaning "
               "(statements that do nothing inserted into bodies, a body wrapped in {% if true %}, template data split in two, a run of statements captured by a set-block / macro / call block and printed; "
               "the Lean reference semantics renders both and must render them alike, else the case is reported as broken) but other body shapes, and both renders must be equal; "
               "the box of fast-path shapes (c03 shapes): 22 constructs with a body (set-block plain / filtered, macro, macro with keyword call, caller(), top level, if, else, for, for-else, with, filter-blocks, printed macro, call blocks plain / literal keyword / parameter, "
               "failing if / elif / for / loop-filter / with heads) x 11 body shapes (empty, template data only, one character, one literal, one variable, one safe variable, data+expression, one nested if / for, one assignment, nested set-block) "
-              "x 8 ways of looking at the captured value, each as a plain case, under esc-ident and as twin pairs under the four other modes; "
+              "x 8 ways of looking at the captured value, each as a plain case, under esc-ident / esc-off ({% autoescape false %} in an HTML-escaping environment: absolute) and as twin pairs under the four other modes, and the value-producing ones with the observation as the tail of the child / include / render_block / from / import entry forms; "
               "generator axes added: bodies may be empty, loop filters read the ENCLOSING loop's loop.*, default filter applied to none, idiom self-rebind (a macro / call-block body re-binds an enclosing name from its own old value: set v = f(v), with v = f(v), with a = .., v = f(a, v), for v in [v, ..], set-block v printing v, tuple assignment, guarded set, loop over v filtered by v)")
     r.assumptions = [
         "programs deeper than 6 / larger than 40 nodes behave compositionally like the sampled ones (proved for the reference interpreter's laws, sampled for the engine)",
@@ -335,7 +335,7 @@ def run(r):
             why = frag[2:] if frag.startswith("-:") else "not compiled by the model generator"
             r.hist["proved_fragment"][("entry form: " if is_wrap else "") + "outside (" + why + ")"] += 1
         stream = "probe: defaults that read an earlier parameter (known deviation)" if is_sibling else \
-                 ("fast-path shape box" + (" under auto-escape modes" if is_wrap else "")) if cid.startswith("fp") else \
+                 ("fast-path shape box" + (" through entry forms / under auto-escape modes" if is_wrap else "")) if cid.startswith("fp") else \
                  ("argument-binding box" + (" through splats / from Rust" if is_wrap else "")) if cid.startswith("ab") else \
                  ("entry-form cases" if is_wrap else ("generated programs" if cid.startswith("g") else "corpus / hand-written programs"))
         share[stream][1] += 1
